@@ -170,4 +170,133 @@ theorem undo_Live_gone (e : Env) (s : St) (L : List Nat) (t : Nat) (hl : Live e 
     | some u => rw [hl.rows t ht idx u hlk] at hm; cases hm
   · exact undoTx_lookup_mat e s (e.tx t) idx hselft hm
 
+/-- **applying an admitted, hash-causal transaction extends the invariant** (admission facts as hypotheses: inputs
+distinct and present with the cited amounts, cited amounts balanced; causality: `e.tx i` has id `i`, no row carries
+that id, no live transaction cites it, it does not cite itself) -/
+theorem applyTx_Live (e : Env) (s : St) (L : List Nat) (i : Nat) (hl : Live e s.U L) (hnot : i ∉ L)
+    (hid : (e.tx i).id = i) (hcb : (e.tx i).coinbase = false)
+    (hnd : ((e.tx i).ins.map (fun r => (r.tx, r.off))).Nodup)
+    (hcur : ∀ r ∈ (e.tx i).ins, ∃ u, lookup s.U (r.tx, r.off) = some u ∧ u.amt = r.amt)
+    (hbal : (((e.tx i).ins.map (fun r => (r.amt : Int))).sum) = (outSum (e.tx i).outs : Int))
+    (hfresh : ∀ o, lookup s.U (i, o) = none)
+    (hcited : ∀ j ∈ L, ∀ r ∈ (e.tx j).ins, r.tx ≠ i)
+    (hself : ∀ r ∈ (e.tx i).ins, r.tx ≠ i) :
+    Live e (applyTx s (e.tx i)).U (L ++ [i]) := by
+  have hself' : ∀ r ∈ (e.tx i).ins, r.tx ≠ (e.tx i).id := by rw [hid]; exact hself
+  have hmem : ∀ x, x ∈ L ++ [i] ↔ x ∈ L ∨ x = i := by
+    intro x; simp only [List.mem_append, List.mem_cons, List.not_mem_nil, or_false]
+  have hneL : ∀ j ∈ L, j ≠ i := fun j hj e2 => hnot (e2 ▸ hj)
+  have hnew : ∀ a ∈ L, ∀ r ∈ (e.tx a).ins, ∀ r' ∈ (e.tx i).ins, (r.tx, r.off) ≠ (r'.tx, r'.off) := by
+    intro a ha r hr r' hr' heq
+    obtain ⟨u, hu, _⟩ := hcur r' hr'
+    rw [← heq, hl.insSpent a ha r hr] at hu
+    cases hu
+  refine ⟨?_, ?_, ?_, ?_, ?_, ?_, ?_, ?_, ?_, ?_, ?_, ?_⟩
+  · apply List.nodup_append.mpr
+    refine ⟨hl.nodupL, by simp, ?_⟩
+    intro a ha b hb
+    simp only [List.mem_cons, List.not_mem_nil, or_false] at hb
+    rw [hb]; exact hneL a ha
+  · intro j hj
+    rcases (hmem j).mp hj with h | h
+    · exact hl.idEq j h
+    · rw [h]; exact hid
+  · intro j hj
+    rcases (hmem j).mp hj with h | h
+    · exact hl.nonCoinbase j h
+    · rw [h]; exact hcb
+  · intro j hj
+    rcases (hmem j).mp hj with h | h
+    · exact hl.insNodup j h
+    · rw [h]; exact hnd
+  · intro j hj
+    rcases (hmem j).mp hj with h | h
+    · exact hl.noSelf j h
+    · rw [h]; exact hself
+  · intro j hj
+    rcases (hmem j).mp hj with h | h
+    · exact hl.balanced j h
+    · rw [h]; exact hbal
+  · apply List.pairwise_append.mpr
+    refine ⟨hl.order, by simp, ?_⟩
+    intro a ha b hb
+    simp only [List.mem_cons, List.not_mem_nil, or_false] at hb
+    rw [hb]; exact hcited a ha
+  · -- outs
+    intro j hj idx hm
+    rcases (hmem j).mp hj with hjL | hji
+    · rcases hl.outs j hjL idx hm with ⟨u, hu, ha⟩ | ⟨j', hj', r, hr, hrt, hro⟩
+      · by_cases hin : (j, idx) ∈ (e.tx i).ins.map (fun r => (r.tx, r.off))
+        · right
+          obtain ⟨r, hr, he⟩ := List.mem_map.mp hin
+          injection he with e1 e2
+          exact ⟨i, (hmem i).mpr (Or.inr rfl), r, hr, e1, e2⟩
+        · left
+          refine ⟨u, ?_, ha⟩
+          rw [applyTx_lookup_otherid s (e.tx i) (j, idx) (by rw [hid]; exact hneL j hjL)]
+          simp only [hin, ↓reduceIte]
+          exact hu
+      · right
+        exact ⟨j', (hmem j').mpr (Or.inl hj'), r, hr, hrt, hro⟩
+    · left
+      subst hji
+      have := applyTx_lookup_mat s (e.tx j) idx hself' hm
+      rw [hid] at this
+      exact this
+  · -- insSpent
+    intro j hj r hr
+    rcases (hmem j).mp hj with hjL | hji
+    · rw [applyTx_lookup_otherid s (e.tx i) (r.tx, r.off) (by rw [hid]; exact hcited j hjL r hr)]
+      split
+      · rfl
+      · exact hl.insSpent j hjL r hr
+    · subst hji
+      rw [applyTx_lookup_otherid s (e.tx j) (r.tx, r.off) (hself' r hr)]
+      have : (r.tx, r.off) ∈ (e.tx j).ins.map (fun r => (r.tx, r.off)) := List.mem_map.mpr ⟨r, hr, rfl⟩
+      simp only [this, ↓reduceIte]
+  · -- disjoint
+    intro a ha b hb hab r hr r' hr'
+    rcases (hmem a).mp ha with haL | hai
+    · rcases (hmem b).mp hb with hbL | hbi
+      · exact hl.disjoint a haL b hbL hab r hr r' hr'
+      · rw [hbi] at hr'
+        exact hnew a haL r hr r' hr'
+    · rcases (hmem b).mp hb with hbL | hbi
+      · rw [hai] at hr
+        exact fun heq => hnew b hbL r' hr' r hr heq.symm
+      · exact absurd (hai.trans hbi.symm) hab
+  · -- cites
+    intro j hj r hr hrm
+    rcases (hmem j).mp hj with hjL | hji
+    · rcases (hmem r.tx).mp hrm with hrL | hri
+      · exact hl.cites j hjL r hr hrL
+      · exact absurd hri (hcited j hjL r hr)
+    · rw [hji] at hr
+      rcases (hmem r.tx).mp hrm with hrL | hri
+      · obtain ⟨u, hu, hamt⟩ := hcur r hr
+        have hmat := hl.rows r.tx hrL r.off u hu
+        refine ⟨hmat, ?_⟩
+        rcases hl.outs r.tx hrL r.off hmat with ⟨u', hu', ha'⟩ | ⟨j', hj', r', hr', e1, e2⟩
+        · rw [hu] at hu'
+          injection hu' with hu'
+          rw [← ha', ← hu', hamt]
+        · have := hl.insSpent j' hj' r' hr'
+          rw [e1, e2, hu] at this
+          cases this
+      · exact absurd hri (hself r hr)
+  · -- rows
+    intro j hj idx u hu
+    rcases (hmem j).mp hj with hjL | hji
+    · rw [applyTx_lookup_otherid s (e.tx i) (j, idx) (by rw [hid]; exact hneL j hjL)] at hu
+      split at hu
+      · cases hu
+      · exact hl.rows j hjL idx u hu
+    · subst hji
+      cases hm : matSlot (e.tx j) idx
+      · have := applyTx_lookup_nonmat s (e.tx j) idx hself' hm
+        rw [hid] at this
+        rw [this, hfresh idx] at hu
+        cases hu
+      · rfl
+
 end XV.Chain
